@@ -16,7 +16,7 @@ def tree_jobs(prop, q_args, t_args):
 
 CHECKS['C01'] = dict(
     title='tree table exact sorted map', level='exploration',
-    jobs=tree_jobs('C01', ['--universe', '10', '--cases', '600'], ['--universe', '12', '--cases', '4000']),
+    jobs=tree_jobs('C01', ['--universe', '10', '--cases', '600'], ['--universe', '13', '--cases', '24000']),
     rule='evaluation = one API call compared with the sorted-map model, followed by a full content comparison '
          '(every universe key, size, min, max). Phase A enumerates breadth-first every LLRB shape reachable by put/remove '
          'over the universe, per (ordering, key class) configuration, applying every put/remove to every shape; phase B runs '
@@ -28,7 +28,7 @@ CHECKS['C01'] = dict(
 
 CHECKS['C02'] = dict(
     title='tree table valid LLRB, logarithmic lookups', level='exploration',
-    jobs=tree_jobs('C02', ['--universe', '10', '--cases', '600', '--big', '16', '--bign', '5000'], ['--universe', '12', '--cases', '4000', '--big', '32', '--bign', '20000']),
+    jobs=tree_jobs('C02', ['--universe', '10', '--cases', '600', '--big', '16', '--bign', '5000'], ['--universe', '13', '--cases', '24000', '--big', '64', '--bign', '20000']),
     rule='evaluation = one put/remove/get (including failed removes, replacing puts, and puts that fail because their 1st/2nd/3rd allocation fails - from every shape) after which the independent walker '
          '(order, black root, no red-red, equal black height, no right-leaning lone red, node count) and qtreetbl_check() are evaluated; '
          'lookup cost = comparator calls of getobj, bound 2^cmp <= (n+1)^2. distinct = distinct (configuration, shape) pairs.',
@@ -37,7 +37,7 @@ CHECKS['C02'] = dict(
 
 CHECKS['C03'] = dict(
     title='tree traversal ascending exactly-once', level='exploration',
-    jobs=tree_jobs('C03', ['--universe', '9', '--cases', '400'], ['--universe', '11', '--cases', '3000']),
+    jobs=tree_jobs('C03', ['--universe', '9', '--cases', '400'], ['--universe', '12', '--cases', '24000']),
     rule='evaluation = one operation of a history of put/remove/complete walks/abandoned walks/nearest searches; every complete '
          'walk from a zeroed cursor is compared element by element (key, key size, value, value size) with the model order and must end once. A directed epoch sweep places exactly k traversal starts of one kind (nearest searches, abandoned continuations, abandoned walks, completed continuations, mixed) between audited walks for k around one and two wraps of the 8-bit counter. '
          'distinct = distinct (configuration, tree shape, epoch value) triples at which an audited walk completed.',
@@ -46,7 +46,7 @@ CHECKS['C03'] = dict(
 
 CHECKS['C04'] = dict(
     title='nearest-key search floor semantics / termination', level='exploration',
-    jobs=tree_jobs('C04', ['--universe', '9', '--cases', '600'], ['--universe', '11', '--cases', '4000']),
+    jobs=tree_jobs('C04', ['--universe', '9', '--cases', '600'], ['--universe', '12', '--cases', '16000']),
     rule='evaluation = one operation; every find_nearest result is compared with floor(probe) on the model (min if no floor, ENOENT on empty) under a 2 s CPU budget; '
          'continuations are audited as a multiset when no walk is pending. distinct = distinct (configuration, tree shape, probe key) triples.',
     require=['probes', 'probe_equal', 'probe_in_gap', 'probe_below_min', 'probe_above_max', 'probes_after_root_change', 'continuations_audited'],
@@ -58,7 +58,7 @@ REFS_HASH = ('refs/ref_hash.c',)
 CHECKS['C05'] = dict(
     title='hash table exact map for every history and range', level='exploration',
     jobs=lambda tier, seed: [Job('h_hashtbl', 'plain', extra_srcs=REFS_HASH,
-                                 args=['--cases', '5000' if tier == 'thorough' else '480'])],
+                                 args=['--cases', '48000' if tier == 'thorough' else '480'])],
     rule='evaluation = one API call (put/putstr/putstrf/putint/get/getstr/getint/remove/clear/size/getnext walk) compared with an association-array model; '
          'after every operation of small configurations (every 16th otherwise) every universe key is re-read and the chain walker re-checks slot placement '
          '(reference MurmurHash3), stored hashes, duplicates and the count. Ranges 1,2,3,7,64,default; removals chosen by chain position head/middle/tail/only; one key style consists of pairs of distinct keys with identical full 32-bit hashes (found by birthday search with the reference hash). '
@@ -114,7 +114,7 @@ CHECKS['C07'] = dict(
 
 CHECKS['C08'] = dict(
     title='list table exact ordered multimap under every option combination', level='exploration',
-    jobs=lambda tier, seed: [Job('h_listtbl', 'plain', extra_srcs=REFS_HASH, args=['--cases', '12800' if tier == 'thorough' else '960'])],
+    jobs=lambda tier, seed: [Job('h_listtbl', 'plain', extra_srcs=REFS_HASH, args=['--cases', '128000' if tier == 'thorough' else '960'])],
     rule='evaluation = one operation (put/putstr/putstrf/putint, get/getstr/getint, getmulti, remove, full and name-filtered walks with both copy flags, '
          'removeobj of the first/last/only/middle entry during a walk, sort, save+load with and without encoding, clear) compared with an ordered-multimap model '
          'parameterised by the 4 options; after every operation the raw chain (public links) is compared entry by entry with the model order and the link invariants are checked. '
@@ -127,7 +127,7 @@ CHECKS['C08'] = dict(
 
 CHECKS['C09'] = dict(
     title='list, queue, stack, grow buffer exact sequences', level='exploration',
-    jobs=lambda tier, seed: [Job('h_list', 'plain', args=['--cases', '5000' if tier == 'thorough' else '480'])],
+    jobs=lambda tier, seed: [Job('h_list', 'plain', args=['--cases', '64000' if tier == 'thorough' else '480'])],
     rule='evaluation = one operation compared with an array-of-byte-strings model (result, out-size, errno class ERANGE/ENOBUFS/EINVAL/ENOENT), followed by a full comparison of the '
          'chain (public links, both directions), size() and datasize(). Exhaustive sweep: every (n<=12, index in [-n-2,n+2], op in addat/getat/popat/removeat, size limit none/n-1/n/n+1) cell on a fresh list; '
          'random histories of list (all operations incl. setsize, reverse, toarray, tostring, getnext), queue (FIFO), stack (LIFO) and grow buffer (concatenation). '
@@ -140,7 +140,7 @@ CHECKS['C09'] = dict(
 
 CHECKS['C10'] = dict(
     title='vector exact array under every growth policy', level='exploration',
-    jobs=lambda tier, seed: [Job('h_vector', 'plain', args=['--cases', '4000' if tier == 'thorough' else '320'])],
+    jobs=lambda tier, seed: [Job('h_vector', 'plain', args=['--cases', '64000' if tier == 'thorough' else '320'])],
     rule='evaluation = one operation compared with an array-of-fixed-size-elements model (result, returned bytes, errno ERANGE/ENOENT/EINVAL), followed by a comparison of the whole '
          'element buffer, size(), element size, num<=max and data!=NULL iff max>0. Exhaustive sweep: every (n<=10, index in [-n-2,n+2], element size 1/3/8/17/64, policy exact/linear/double, '
          'initial capacity 0/1/n/n+3, op addat/getat/setat/popat/removeat) cell; random histories with resize to 0 / at or below n / above n interleaved with middle insertion and removal. '
@@ -347,7 +347,7 @@ CHECKS['C18'] = dict(
 CHECKS['C19'] = dict(
     title='string utilities exact, bounded writes', level='exploration',
     jobs=lambda tier, seed: [Job('h_string', 'asan', args=(['--maxlen', '7', '--random', '40000'] if tier == 'thorough' else ['--maxlen', '5', '--random', '4000']))],
-    rule='evaluation = one call compared with an independently written reference definition: qstrtrim/_head/_tail over exactly {space,tab,CR,LF}; qstrreplace tn/tr/sn/sr (token mode: each listed character -> word; string mode: leftmost non-overlapping occurrences; '
+    rule='evaluation = one call compared with an independently written reference definition: qstrtrim/_head/_tail over exactly {space,tab,CR,LF} (the alphabet contains VT, FF, 0x80 as non-blanks); qstrreplace tn/tr/sn/sr (token mode: each listed character -> word; string mode: leftmost non-overlapping occurrences; '
          'in-place buffers sized max(|src|,|result|)+1); qstrcpy/qstrncpy = first min(n,size-1) bytes + NUL for every size 1..n+2 and nbytes 0..n between guard bytes, overlapping source; qstrtok by field list and exact reconstruction (neutral on a final empty field), '
          'qstrtokenizer = that list; qstrgets with big (exact lines) and small buffers (pieces concatenate to the CR/LF-free text); qstrunchar, qstrrev, qstrupper/lower (ASCII only), qstrdup_between, qmemdup. All strings up to length 5 (quick) / 7 (thorough) over the significant alphabets, '
          'all (src,token,word) triples over {a,b,:}, random inputs to 2 KiB; exact-size heap blocks under ASan/UBSan. distinct = distinct (function group, input) pairs.',
